@@ -39,6 +39,8 @@ def run(ctx, obs):
     axes(ctx, obs)
     means(ctx, obs)
     correct_1d(ctx, obs)
+    resampled_factor_counts(ctx, obs)
+    variance_model_axis(ctx, obs)
 
 
 def _arms(f, var='test_type'):
@@ -383,3 +385,85 @@ def correct_1d(ctx, obs, rule='UNIFORM'):
     mn = [c for c in ast.walk(f.node) if isinstance(c, ast.Call) and _leaf(c.func) == 'min']
     obs.check(any({norm(a) for a in c.args} == {'n_rdm', 'n_pattern'} for c in mn), rule, q,
               'with both factors resampled the smaller count is used', 'no min(n_rdm, n_pattern)', '', where(prog, f, f.node))
+
+
+def resampled_factor_counts(ctx, obs, rule='NFACTOR'):
+    """extract_variances / _correct_1d apply the n/(n-1) factor for every count they are given ("If you bootstrapped only one factor
+    only pass the N for that factor!").  Which factor a routine resamples is read off the bootstrap helper it calls; the Result it
+    builds must then receive exactly the matching counts: rdm bootstrap -> n_rdm only, pattern bootstrap -> n_pattern only, joint
+    bootstrap -> both, fixed evaluation (variance across RDMs) -> n_rdm only."""
+    prog = ctx.prog
+    E = 'inference.evaluate.'
+    for fn in ('eval_fixed', 'eval_bootstrap', 'eval_bootstrap_rdm', 'eval_bootstrap_pattern', 'eval_dual_bootstrap'):
+        q = E + fn
+        f = prog.func(q)
+        r = ctx.dep.result(q)
+        boots = set()
+        for c in r.calls:
+            for g in c.callees:
+                leaf = g.split('.')[-1]
+                if leaf.startswith('bootstrap_sample'):
+                    boots.add(leaf)
+        if boots == {'bootstrap_sample_rdm'}:
+            want = {'n_rdm': True, 'n_pattern': False}
+        elif boots == {'bootstrap_sample_pattern'}:
+            want = {'n_rdm': False, 'n_pattern': True}
+        elif boots == {'bootstrap_sample'}:
+            want = {'n_rdm': True, 'n_pattern': True}
+        elif not boots:
+            want = {'n_rdm': True, 'n_pattern': False}
+        else:
+            obs.unk(rule, q, 'counts handed to Result match the resampled factors', f'several bootstrap helpers: {sorted(boots)}',
+                    where(prog, f, f.node))
+            continue
+        ctors = [c for c in r.calls if any(g.endswith('inference.result.Result.__init__') for g in c.callees)]
+        for c in ctors:
+            b = bound_args(prog, 'inference.result.Result.__init__', c)
+            for p, given in want.items():
+                e = b.get(p, (None, None))[0]
+                is_none = e is None or (isinstance(e, ast.Constant) and e.value is None)
+                what = 'rdm' if p == 'n_rdm' else 'pattern'
+                con = f'{p} is {"given" if given else "withheld"} ({fn} {"resamples" if given else "does not resample"} the {what} factor)'
+                if given:
+                    obs.check(not is_none, rule, q, con, f'`{norm(c.node)[:60]}...` passes no {p}: the n/(n-1) correction for the resampled '
+                              f'{what} factor is skipped', '', where(prog, f, c.node))
+                else:
+                    obs.check(is_none, rule, q, con, f'{p}=`{norm(e) if e is not None else None}` is handed to Result: the variance factor '
+                              f'becomes min(n_rdm, n_pattern)/(min - 1) although only the other factor was resampled', '',
+                              where(prog, f, c.node))
+
+
+def variance_model_axis(ctx, obs, rule='AXIS'):
+    """Result.__init__ decides whether the noise-ceiling rows are part of `variances` by comparing its size along the MODEL axis with
+    the number of models.  extract_variances accepts 0-d, (m,), (m, m) and the (3, m, m) stack of the dual bootstrap (it indexes
+    `variance[0..2]` in its 3-d arm), so only the last axis is a model axis for every layout."""
+    prog = ctx.prog
+    q = 'inference.result.Result.__init__'
+    f = prog.func(q)
+    qe = U + 'extract_variances'
+    fe = prog.func(qe)
+    has_stack = any(isinstance(n, ast.Compare) and isinstance(n.left, ast.Attribute) and n.left.attr == 'ndim'
+                    and isinstance(n.comparators[0], ast.Constant) and n.comparators[0].value == 3 for n in ast.walk(fe.node)) or \
+        any(isinstance(n, ast.Subscript) and isinstance(n.value, ast.Name) and n.value.id == fe.pos_params[0]
+            and isinstance(n.slice, ast.Constant) and n.slice.value in (0, 1, 2) for n in ast.walk(fe.node))
+    cmps = [n for n in ast.walk(f.node) if isinstance(n, ast.Compare) and any(
+        isinstance(x, ast.Subscript) and isinstance(x.value, ast.Attribute) and x.value.attr == 'shape'
+        and isinstance(x.value.value, ast.Name) and x.value.value.id == 'variances' for x in ast.walk(n))]
+    if not cmps:
+        obs.unk(rule, q, 'size of variances along the model axis is compared with the number of models', 'comparison not found',
+                where(prog, f, f.node))
+        return
+    for n in cmps:
+        sub = [x for x in ast.walk(n) if isinstance(x, ast.Subscript) and isinstance(x.value, ast.Attribute) and x.value.attr == 'shape'][0]
+        k = sub.slice.value if isinstance(sub.slice, ast.Constant) else (
+            -sub.slice.operand.value if isinstance(sub.slice, ast.UnaryOp) and isinstance(sub.slice.op, ast.USub)
+            and isinstance(sub.slice.operand, ast.Constant) else None)
+        con = 'the presence of noise-ceiling rows is read off the last (model) axis of variances'
+        if k == -1:
+            obs.ok(rule, q, con, f'`{norm(n)}`', where(prog, f, n))
+        elif k == 0 and has_stack:
+            obs.bad(rule, q, con, f'`{norm(n)}` looks at axis 0, which is the stack of three covariances for the dual bootstrap: with three '
+                    f'models (or any number other than three without noise-ceiling rows) the flag is wrong and the variances are read '
+                    f'from the wrong rows', where(prog, f, n))
+        else:
+            obs.unk(rule, q, con, f'`{norm(n)}`: axis {k}', where(prog, f, n))
